@@ -28,6 +28,8 @@ type Config struct {
 	// FanOut, if set, is called in every reached state with a function that
 	// tries one extra op from that state (checked, successor not enqueued).
 	MaxStates int
+	// FanOutTypes: record types tried as one extra event from every reached state.
+	FanOutTypes []int
 }
 
 type step = Op
@@ -41,6 +43,7 @@ type Result struct {
 	Samples                      []string
 	PermChoices                  int // transitions that took a non-identity Iterate order
 	Unspecified                  int
+	FanOut                       int // one-step fan-out transitions (C04: every record type)
 }
 
 type searcher struct {
@@ -111,6 +114,13 @@ func (s *searcher) enabled(sp *Spec) []Op {
 	return ops
 }
 
+func emitLabel(m Emit) string {
+	if m.Idx < 0 {
+		return xLabel(m.Sess)
+	}
+	return evLabel(m.Sess, m.Idx)
+}
+
 func sessIndexByID(defs []SessDef, id string) int {
 	for i, d := range defs {
 		if d.ID == id {
@@ -153,7 +163,7 @@ func (s *searcher) judge(w *World, sp *Spec, op Op, before int, must, may []Emit
 				return "seq:lost:" + op.K, "an event the property requires was not emitted; " + describe()
 			}
 			e := delta[k]
-			if e.Sess != cfg.Sess[m.Sess].ID || e.Label != evLabel(m.Sess, m.Idx) {
+			if e.Sess != cfg.Sess[m.Sess].ID || e.Label != emitLabel(m) {
 				return "seq:wrong-event:" + op.K, "wrong event or order; " + describe()
 			}
 			if e.Identity != w.Ident(m.Login) {
@@ -168,7 +178,7 @@ func (s *searcher) judge(w *World, sp *Spec, op Op, before int, must, may []Emit
 			for mi < len(may) {
 				m := may[mi]
 				mi++
-				if e.Sess == cfg.Sess[m.Sess].ID && e.Label == evLabel(m.Sess, m.Idx) {
+				if e.Sess == cfg.Sess[m.Sess].ID && e.Label == emitLabel(m) {
 					if e.Identity != w.Ident(m.Login) {
 						return "seq:identity-late:" + op.K, fmt.Sprintf("late event %s/%s carries %s, want login %d", e.Sess, e.Label, e.Identity, m.Login)
 					}
@@ -237,6 +247,7 @@ type succ struct {
 	nontriv bool
 	perm    bool
 	unspec  bool
+	fan     bool // one-step fan-out: judged, not enqueued
 }
 
 // expand explores every transition out of the state reached by h.
@@ -292,6 +303,24 @@ func (s *searcher) expand(h []step) (out []succ, unspecified bool, replays int) 
 			}
 		}
 		rec(nil)
+	}
+	// one-step fan-out (checked, successors not enqueued): one event of every
+	// record type for every session of the alphabet
+	for _, typ := range cfg.FanOutTypes {
+		for si := range cfg.Sess {
+			w, sp := s.replay(h)
+			replays++
+			before := w.Rec.Len()
+			op := Op{K: "X", I: si, Typ: typ}
+			setChooser(w, &chooser{})
+			err := w.Apply(op)
+			setChooser(w, nil)
+			must, may := sp.Apply(op)
+			sc := succ{h2: append(append([]step{}, h...), op), fan: true}
+			sc.class, sc.msg = s.judge(w, sp, op, before, must, may, err)
+			w.Close()
+			out = append(out, sc)
+		}
 	}
 	return out, false, replays
 }
@@ -358,6 +387,10 @@ func Search(run *mc.Run, cfg *Config) *Result {
 						run.Violation(key, map[string]any{"config": cfg.Name, "history": sc.h2},
 							fmt.Sprintf("history: %s\n%s", histString(sc.h2), sc.msg))
 					}
+					continue
+				}
+				if sc.fan {
+					s.res.FanOut++
 					continue
 				}
 				if !s.seen[sc.key] {
